@@ -2107,6 +2107,12 @@ func (e *c03eng) decideLocal(g c03goal, cls []c03clause) (ok bool, used []c03cla
 					return true, []c03clause{cl}, residual, "guard " + a.pretty()
 				}
 			}
+			// the same two quantities up to constant offsets: x <= n-1 establishes x < n
+			for _, cl := range cls {
+				if len(cl.atoms) == 1 && c03relLinearImplies(cl.atoms[0], want) {
+					return true, []c03clause{cl}, residual, "guard " + cl.atoms[0].pretty()
+				}
+			}
 		}
 		if want.kind == "cmp" {
 			lo, hi := c03interval(want.t, cls)
@@ -2219,6 +2225,10 @@ func (e *c03eng) proveX(g c03goal, at ssa.Instruction, depth int, extra []c03cla
 		}
 		how = "guard found but a store to the tested location may intervene"
 	}
+	if pr, ok := e.provePhiSplit(residual, at); ok {
+		pr.depth = depth
+		return pr
+	}
 	if e.hook != nil {
 		if ok, hw := e.hook(residual); ok {
 			return c03proof{ok: true, how: hw, depth: depth}
@@ -2253,7 +2263,7 @@ func (e *c03eng) proveX(g c03goal, at ssa.Instruction, depth int, extra []c03cla
 		if !ok {
 			return c03proof{how: "argument at call site in " + core.FuncKey(s.Parent()) + " not expressible"}
 		}
-		p := e.proveX(sg, s, depth+1, e.dispatchFacts(s, fn))
+		p := e.proveX(sg, s, depth+1, append(e.dispatchFacts(s, fn), e.selectorFacts(s, fn)...))
 		if !p.ok {
 			return c03proof{how: "caller " + core.FuncKey(s.Parent()) + ": " + p.how}
 		}
